@@ -16,7 +16,7 @@ func main() {
 			"non-trivial = at least 5 emitted rows or an error outcome; distinct by Gallina term",
 		Modes:     []luaprop.Mode{{Name: "calls", Features: f, Weight: 5}, {Name: "calls-bigk", Features: bigk(f), Weight: 1}},
 		NQuick:    400,
-		NThorough: 6000,
+		NThorough: 2500,
 		Corpus:    corpus,
 		VM:        true,
 		Extra:     tailCalls,
